@@ -717,6 +717,9 @@ class SimPort(object):
 
     def startListening(self):
         self.listening = True
+        if self not in self.reactor.ports:
+            self.reactor.sim.log('start-listening', self.port)
+            self.reactor.ports.append(self)
 
     def stopListening(self):
         self.listening = False
